@@ -4,7 +4,7 @@
 use serde::{Deserialize, Serialize};
 use serde_json::{json, Value};
 use std::{pin::pin, task::Poll};
-use zlink_core::Call;
+use zlink_core::{Call, Reply, service::MethodReply};
 use zlink_replay::*;
 
 #[derive(Debug, Deserialize, Serialize, PartialEq, Clone)]
@@ -92,6 +92,113 @@ fn run_recv(wire: &[u8], cuts: &[usize], pending_reads: &[usize]) -> (Vec<String
     (expected, got)
 }
 
+// ---------------------------------------------------------------------------------------------
+// C08: a real Server over scripted connections
+#[derive(Debug)]
+struct ScriptedListener {
+    conns: Vec<ScriptedSocket>,
+}
+impl zlink_core::Listener for ScriptedListener {
+    type Socket = ScriptedSocket;
+    async fn accept(&mut self) -> zlink_core::Result<zlink_core::Connection<ScriptedSocket>> {
+        if let Some(s) = self.conns.pop() {
+            Ok(zlink_core::Connection::new(s))
+        } else {
+            std::future::pending().await
+        }
+    }
+}
+struct Svc;
+impl zlink_core::Service for Svc {
+    type MethodCall<'de> = M;
+    type ReplyParams<'ser> = P;
+    type ReplyStreamParams = P;
+    type ReplyStream = futures_util::stream::Empty<Reply<P>>;
+    type ReplyError<'ser> = E;
+    async fn handle<'ser>(&'ser mut self, call: Call<Self::MethodCall<'_>>) -> MethodReply<Self::ReplyParams<'ser>, Self::ReplyStream, Self::ReplyError<'ser>> {
+        match call.method() {
+            M::B { a } => MethodReply::Single(Some(P { a: *a })),
+            M::C => MethodReply::Single(None),
+            M::S { .. } => MethodReply::Error(E::Bad { code: 7 }),
+        }
+    }
+}
+
+/// expected frames on the connection for the calls in `wire` (all frames valid calls)
+fn oracle_server(wire: &[u8]) -> Vec<String> {
+    let mut out = Vec::new();
+    for f in frames_of(wire) {
+        let c: Call<M> = match serde_json::from_slice(f) {
+            Ok(c) => c,
+            Err(_) => break, // connection is dropped at the first undecodable call
+        };
+        if c.oneway() {
+            continue;
+        }
+        out.push(match c.method() {
+            M::B { a } => format!(r#"{{"parameters":{{"a":{a}}},"continues":false}}"#),
+            M::C => r#"{"continues":false}"#.to_string(),
+            M::S { .. } => r#"{"error":"a.Bad","parameters":{"code":7}}"#.to_string(),
+        });
+    }
+    out
+}
+
+fn run_server(wires: &[Vec<u8>], cuts: &[usize]) -> (Vec<Vec<String>>, Vec<Vec<String>>) {
+    let socks: Vec<ScriptedSocket> = wires.iter().map(|w| ScriptedSocket::new(w, cuts)).collect();
+    let scripts: Vec<_> = socks.iter().map(|s| s.0.clone()).collect();
+    let mut conns = socks;
+    conns.reverse();
+    let server = zlink_core::Server::new(ScriptedListener { conns }, Svc);
+    let mut fut = Box::pin(server.run());
+    for _ in 0..10_000 {
+        if let Poll::Ready(_) = poll_once(fut.as_mut()) {
+            break;
+        }
+        // quiescent when every script is fully consumed and a few more polls made no writes
+        if scripts.iter().all(|s| { let s = s.borrow(); s.consumed == s.wire.len() }) {
+            let before: usize = scripts.iter().map(|s| s.borrow().log.len()).sum();
+            for _ in 0..8 { let _ = poll_once(fut.as_mut()); }
+            let after: usize = scripts.iter().map(|s| s.borrow().log.len()).sum();
+            if before == after { break; }
+        }
+    }
+    let expected = wires.iter().map(|w| oracle_server(w)).collect();
+    let got = scripts.iter().map(|s| {
+        let flat: Vec<u8> = s.borrow().log.iter().flatten().copied().collect();
+        frames_of(&flat).iter().map(|f| String::from_utf8_lossy(f).to_string()).collect()
+    }).collect();
+    (expected, got)
+}
+
+fn search_server(seed: u64, budget: usize) -> Option<Value> {
+    let mut rng = Rng(seed.wrapping_mul(0x9E3779B97F4A7C15) | 1);
+    let calls = [
+        r#"{"method":"a.B","parameters":{"a":1}}"#, r#"{"method":"a.C"}"#, r#"{"method":"a.C","oneway":true}"#,
+        r#"{"method":"a.B","parameters":{"a":5},"oneway":true}"#, r#"{"method":"a.S","parameters":{"s":"x"}}"#,
+        r#"{"method":"a.S","parameters":{"s":"x"},"oneway":true}"#, r#"{"method":"a.B","parameters":{"a":9},"more":true}"#,
+    ];
+    for _ in 0..budget {
+        let nconn = 1 + rng.below(3);
+        let mut wires = Vec::new();
+        for _ in 0..nconn {
+            let mut w = Vec::new();
+            for _ in 0..rng.below(6) {
+                w.extend_from_slice(calls[rng.below(calls.len())].as_bytes());
+                w.push(0);
+            }
+            wires.push(w);
+        }
+        let cuts: Vec<usize> = match rng.below(3) { 0 => vec![], 1 => vec![1 + rng.below(7)], _ => (0..3).map(|_| 1 + rng.below(60)).collect() };
+        let (exp, got) = run_server(&wires, &cuts);
+        if exp != got {
+            return Some(json!({"kind":"server","wires_hex":wires.iter().map(|w| hex(w)).collect::<Vec<_>>(),
+                "wires_shown":wires.iter().map(|w| show(w)).collect::<Vec<_>>(),"cuts":cuts,"expected":exp,"got":got}));
+        }
+    }
+    None
+}
+
 struct Rng(u64);
 impl Rng {
     fn next(&mut self) -> u64 {
@@ -161,6 +268,7 @@ fn main() {
         let found = match kind {
             "recv" => search_recv(seed, budget, false),
             "recv_cancel" => search_recv(seed, budget, true),
+            "server" => search_server(seed, budget / 10),
             _ => panic!("unknown kind"),
         };
         match found {
@@ -187,6 +295,19 @@ fn main() {
             let pend: Vec<usize> = w["pending_reads"].as_array().map(|a| a.iter().map(|x| x.as_u64().unwrap() as usize).collect()).unwrap_or_default();
             let (exp, got) = run_recv(&wire, &cuts, &pend);
             println!("wire     = {}", show(&wire));
+            println!("expected = {exp:?}");
+            println!("got      = {got:?}");
+            if exp != got {
+                println!("REPLAY: FAILS on the real code");
+                std::process::exit(1);
+            }
+            println!("REPLAY: passes on the real code");
+        }
+        Some("server") => {
+            let wires: Vec<Vec<u8>> = w["wires_hex"].as_array().unwrap().iter().map(|x| unhex(x.as_str().unwrap())).collect();
+            let cuts: Vec<usize> = w["cuts"].as_array().unwrap().iter().map(|x| x.as_u64().unwrap() as usize).collect();
+            let (exp, got) = run_server(&wires, &cuts);
+            for w in &wires { println!("wire     = {}", show(w)); }
             println!("expected = {exp:?}");
             println!("got      = {got:?}");
             if exp != got {
